@@ -8,6 +8,7 @@ import (
 	"time"
 	"unicode/utf8"
 
+	"github.com/hedzr/is"
 	"github.com/hedzr/is/term/color"
 	"github.com/hedzr/logg/slog"
 
@@ -264,6 +265,14 @@ func c06main(c *Ctx) {
 		defer slog.SetLevelOutputWidth(3)
 		defer slog.SetMessageMinimalWidth(36)
 		otherFlags := randomOtherFlags(r, slog.Ldate, slog.Ltime, slog.Lmicroseconds, slog.LlocalTime, slog.Lattrs)
+		// some logger of the process is (or was) at Debug level: that switches the process-wide debug mode on; the process
+		// is neither a go test process nor run under a debugger for that
+		if !c.Testing && r.P(10) {
+			dbg := slog.New("dbg")
+			dbg.SetLevel(slog.DebugLevel)
+			c.R.Add("records_after_some_logger_was_set_to_debug_level", 1)
+			defer is.SetDebugMode(false)
+		}
 		warm := r.Intn(6)
 		c.R.Distinct("same_logger_logged_before_in", []string{"-", "-", "json", "logfmt", "color", "a record that panicked while being formatted (recovered)"}[warm])
 		recolor := ""
